@@ -639,12 +639,12 @@ def describe(design, out):
     return "package returned"
 
 
-def report(run, stream, designs, outs, codes):
+def report(run, stream, designs, outs, codes, limit=2):
     order = sorted(codes.items(), key=lambda ic: size(designs[ic[0]]))
     v1 = [i for i, c in order if c == 1]
     v2 = [i for i, c in order if c == 2]
     v3 = [i for i, c in order if c == 3]
-    for i in v1[:2]:
+    for i in v1[:limit]:
         evs = events_of(outs[i])
         captured = [(m, s, e.get("added")) for m, s, e, c in evs if e.get("added") is not None and e.get("added") in (e.get("ns") or [])]
         what = ("an invented name captured a designer's name: " + json.dumps(captured[:3]) if captured else
@@ -692,7 +692,7 @@ def run_designs(run, stream, designs, min_collisions=True):
     if hooks_bad:
         run.violation("C05:hooks", f"anchored naming functions missing in the tree under test: {hooks_bad[0].get('missing')}",
                       dict(kind="tie-missing", hooks=hooks_bad[0]), found_input=False)
-    report(run, stream, designs, outs, {i: c for i, c in codes.items() if c != 4})
+    report(run, stream, designs, outs, {i: c for i, c in codes.items() if c != 4}, limit=None if stream == "corpus" else 2)
     if min_collisions:
         for k in min_collisions if isinstance(min_collisions, (list, tuple)) else KINDS:
             if prov[k] == 0:
